@@ -432,6 +432,7 @@ func init() {
 				}
 				x.priv.bufs[adopt] = coef[:0]
 				x.priv.bufGen[adopt]++
+				x.priv.fromLib[adopt] = true
 			}
 			x.rows = append(x.rows, rw)
 		})
